@@ -148,22 +148,30 @@ EXTRA = {
     "C10": " A fifth of the runs place all nodes on one host. Plus EVERY choice sequence of length 4 / 6 over the enabled actions "
            "(accept, read, write, timer step) of three two-node scenarios, executed from scratch and then drained.",
     "C20": " A non-interference lane runs the same honest script twice -- a second peer silent vs. announcing the same blocks and "
-           "then failing -- and compares the traffic to each honest peer, the final state and the downloaded blocks.",
+           "then failing -- and compares the traffic to each honest peer, the final state and the downloaded blocks. Peer-book "
+           "stories (up to 1000 announced addresses, some really listening, a second greeting, several manager steps) are among "
+           "the hostile streams.",
     "C09": " Rejected blocks are delivered again later; plus EVERY sequence of 3 (quick) / 5 (thorough) deliveries from an 8-event "
            "alphabet on a small chain.",
     "C11": " A socket lane drives the full path below the selector with harness-chosen read sizes; an auxiliary lane runs the "
-           "repository's integration tests on real TCP with a per-connection order monitor.",
-    "C12": " Transactions keep entering the pool while the nonce loop runs.",
+           "repository's integration tests on real TCP with a per-connection order monitor. A many-frames lane sends one large frame "
+           "followed by 1100-1500 minimal ones under four arrival schedules with the transport handing over as much as the node asks for.",
+    "C12": " Transactions keep entering the pool while the nonce loop runs. Between found blocks the head is moved by peers: a block "
+           "stamped ahead of the clock between two work requests, a sibling between request and hit, and a longer branch that "
+           "reorganises the node's own block away while the pool holds spends of the abandoned branch.",
     "C13": " Refused transactions are submitted again later; plus EVERY sequence of 4 / 5 operations from a 9-operation alphabet on "
            "a small forked world.",
     "C14": " Plus EVERY sequence of 3 / 4 requests from a 19-request alphabet on a small wallet.",
-    "C15": " After every crash point the process is restarted and a completed (shorter) save must produce exactly the saved wallet.",
+    "C15": " After every crash point the process is restarted through the scripts' own wallet open (the file is judged again), "
+           "then a completed (shorter) save must produce exactly the saved wallet.",
     "C16": " A history lane asks heights in random order with repeats (the schedule must be a function of the height alone).",
     "C17": " A consensus lane computes header commitments of edited transaction lists back to back through "
-           "consensus.calc_merkle_root_hash.",
+           "consensus.calc_merkle_root_hash. A two-thread lane pre-empts one computation at every statement boundary / function "
+           "entry of the commitment code (sys.monitoring) while another thread computes commitment, tree and proof of another list.",
     "C18": " The recorded blocks are also validated while a competing block is the head.",
     "C19": " EVERY sequence of 5 / 6 events from an 8-event alphabet on one address with a clock that moves in seconds; auxiliary "
-           "lane: the repository's integration tests (real sockets and threads) with the disjointness monitor attached.",
+           "lane: the repository's integration tests (real sockets and threads) with the disjointness monitor attached. After "
+           "every crash point of the peer-file write the node's start-up read and a completed write are run.",
 }
 
 PENDING_REASON = "check not built yet in this revision of /verif (work in progress; no claim made)"
